@@ -74,6 +74,11 @@ def rule_G3(prog, fixture=False):
                         sinks += 1
                         continue
             writes_this = False
+            if (ce.get("cls") == f.cls and not ce.get("const") and not ce.get("static") and n.k == "CXXMemberCallExpr"
+                    and _short(qn) not in ("begin", "end", "size", "stride", "operator=")):
+                obj = n.call_object()
+                if obj is not None and any(r[0] == "this" for r in ctx.flow.root(obj)):
+                    writes_this = True       # a private helper that performs the copy
             if qn in ANY_COPY or qn in ("std::fill", "std::fill_n", "memset", "std::memset"):
                 for a in n.call_args():
                     if any(r[0] == "this" for r in ctx.flow.root(a)):
@@ -163,17 +168,22 @@ def _alias_verdict(ctx, cond, pol, sobj, depth=0):
 
 
 def rule_G3b(prog, fixture=False):
-    res = RuleResult("G3b", "inside slice_t::operator=(const const_slice_t&) every forward copy primitive (memcpy, std::copy) "
-                            "between the two slices is dominated by a branch outcome establishing that their bases are "
-                            "different objects; on the same-base side only memmove or a materialised copy is reached")
-    ops = sorted([f for f in prog.functions.values() if f.cls and SLICE_CLASS.match(f.cls) and _short(f.qn) == "operator="
-                  and f.params and "const_slice_t<" in f.params[0].get("t", "")], key=lambda f: (f.cls, f.line))
-    if not ops:
+    res = RuleResult("G3b", "in slice_t's assignment code every forward copy primitive (memcpy, std::copy, std::copy_n) from storage "
+                            "reached through a parameter into the slice's own storage is dominated by a branch outcome establishing "
+                            "that the two bases are different objects (directly, or through a flag parameter whose value every caller "
+                            "computes that way); on the same-base side only memmove or a materialised copy is reached")
+    methods = sorted([f for f in prog.functions.values() if f.cls and SLICE_CLASS.match(f.cls) and f.kind == "method" and not f.get("implicit")],
+                     key=lambda f: (f.cls, f.line))
+    anchor = [f for f in methods if _short(f.qn) == "operator=" and f.params and "const_slice_t<" in f.params[0].get("t", "")]
+    if not anchor:
         res.broken.append("anchor vanished: no slice_t<T>::operator=(const const_slice_t<T>&) found")
         return res
-    for f in ops:
+    n_sites = 0
+    for f in methods:
         ctx = GuardCtx(prog, f, group_params=False)
-        sobj = ("parm", f.params[0]["n"])
+        src_params = [p for p in f.params if "slice_t<" in p.get("t", "") or p.get("tc") == "ptr"]
+        if not src_params:
+            continue
         idx = 0
         for n in f.walk():
             if not (n.is_call() and n.callee):
@@ -183,10 +193,12 @@ def rule_G3b(prog, fixture=False):
                 continue
             args = n.call_args()
             touches_this = any(any(r[0] == "this" for r in ctx.flow.root(a)) for a in args)
-            touches_src = any(sobj in ctx.flow.root(a) for a in args)
-            if not (touches_this and touches_src):
+            srcs = [("parm", p["n"]) for p in src_params if any(("parm", p["n"]) in ctx.flow.root(a) for a in args)]
+            if not (touches_this and srcs):
                 continue
+            sobj = srcs[0]
             idx += 1
+            n_sites += 1
             key = "G3b:%s:%s%d" % (fkey(f), _short(qn), idx)
             where = "%s:%d" % (prog.rel(f.file), n.line)
             what = "%s in %s" % (n.text(), f.short)
@@ -200,6 +212,8 @@ def rule_G3b(prog, fixture=False):
                     continue
                 for (c, p) in atoms_of(fact.cond, fact.pol):
                     v = _alias_verdict(ctx, c, p, sobj)
+                    if v is None:
+                        v = _alias_verdict_via_callers(prog, f, c, p)
                     if v:
                         verdicts.append((v, c.text()))
             if any(v == "different" for (v, _) in verdicts):
@@ -211,34 +225,100 @@ def rule_G3b(prog, fixture=False):
             else:
                 res.add(key, VIOLATED, where, what, "forward copy primitive between two slices is not dominated by a test that "
                         "their bases are different objects", func=f.name, extra=extra)
-    res.stats["functions"] = len(ops)
+    res.stats["functions"] = len(methods)
+    res.stats["copy_sites"] = n_sites
     return res
+
+
+def _alias_verdict_via_callers(prog, f, cond, pol):
+    """cond is a bool parameter (bool may_overlap): what do all callers pass for it?"""
+    c = cond.strip_all()
+    if not (c.k == "DeclRefExpr" and c.decl and c.decl.get("k") == "parm" and c.tc == "bool"):
+        return None
+    pidx = c.decl.get("pi")
+    callers = prog.callers_of(f.usr)
+    if not callers or pidx is None:
+        return None
+    out = set()
+    for (caller, call) in callers:
+        cn = caller.nodes.get(call["node"])
+        if cn is None:
+            return None
+        args = cn.call_args()
+        if pidx >= len(args):
+            return None
+        cctx = GuardCtx(prog, caller, group_params=False)
+        csrc = [("parm", p["n"]) for p in caller.params if "slice_t<" in p.get("t", "")]
+        v = None
+        for so in csrc:
+            for (a, p2) in atoms_of(args[pidx], pol):
+                v = v or _alias_verdict(cctx, a, p2, so)
+        if v is None:
+            return None
+        out.add(v)
+    return out.pop() if len(out) == 1 else None
 
 
 # =================================================================================================
 def _slice_field_map(prog):
-    """base_slice_t constructor: parameter name -> the field it initialises (derived from the body)"""
+    """base_slice_t constructor: parameter name -> the field that stores (the resolved form of) it.
+    Derived from dependences: the field that depends on the parameter and on the fewest other parameters
+    (_n <- {n}, _m <- {m}, _i1 <- {i1, n}, _i2 <- {i2, n}; _nc depends on all four and is nobody's field)."""
+    from .flow import Flow
     ctors = [f for f in prog.functions.values() if f.cls == "dsplib::base_slice_t" and f.kind == "ctor" and len(f.params) == 4]
     if not ctors:
         return None, None
     f = ctors[0]
     pnames = [p["n"] for p in f.params]
-    mp = {}
+    flow = Flow(f, prog, fields_env=False)     # direct dependences only: a later _i2 = _i1 + _nc * _m must not blur the map
+    fdeps = {}
     for n in f.walk():
         if n.k == "BinaryOperator" and n.op == "=" and len(n.c) == 2:
             lhs = n.c[0].strip_all()
             if lhs.k == "MemberExpr" and lhs.decl and lhs.decl.get("k") == "field":
-                used = {x.decl["n"] for x in n.c[1].walk() if x.k == "DeclRefExpr" and x.decl and x.decl.get("k") == "parm"}
-                used &= set(pnames)
-                if len(used) == 1:
-                    mp[used.pop()] = lhs.decl["n"]
+                ps = {a[1] for a in flow.deps(n.c[1]) if a[0] == "parm" and a[1] in pnames}
+                fdeps.setdefault(lhs.decl["n"], set()).update(ps)
     for ci in f.ctor_inits():
         if ci.get("member") and ci.get("written") and ci.c:
-            used = {x.decl["n"] for x in ci.c[0].walk() if x.k == "DeclRefExpr" and x.decl and x.decl.get("k") == "parm"}
-            used &= set(pnames)
-            if len(used) == 1:
-                mp[used.pop()] = ci.get("member")
+            ps = {a[1] for a in flow.deps(ci.c[0]) if a[0] == "parm" and a[1] in pnames}
+            fdeps.setdefault(ci.get("member"), set()).update(ps)
+    direct = {}
+    for n in f.walk():
+        if n.k == "BinaryOperator" and n.op == "=" and len(n.c) == 2:
+            l, r = n.c[0].strip_all(), n.c[1].strip_all()
+            if l.k == "MemberExpr" and l.decl and l.decl.get("k") == "field" and r.k == "DeclRefExpr" and r.decl and r.decl.get("k") == "parm":
+                direct[r.decl["n"]] = l.decl["n"]
+    mp = {}
+    for p in pnames:
+        if p in direct:
+            mp[p] = direct[p]          # stored unchanged
+            continue
+        cands = sorted([(len(d), fld) for fld, d in fdeps.items() if p in d and fld not in direct.values()])
+        if cands and (len(cands) == 1 or cands[0][0] < cands[1][0]):
+            mp[p] = cands[0][1]
     return f, mp
+
+
+def _local_field_aliases(f):
+    """locals that are stored unchanged into a field (const int s1 = ...; ...; _i1 = s1;) denote the field's value"""
+    out = {}
+    written = {}
+    for n in f.walk():
+        if n.k in ("BinaryOperator", "CompoundAssignOperator") and n.op and n.op.endswith("=") and n.op not in ("==", "!=", "<=", ">=") and n.c:
+            l = n.c[0].strip_all()
+            if l.k == "DeclRefExpr" and l.decl and l.decl.get("k") == "local":
+                written[l.decl["id"]] = written.get(l.decl["id"], 0) + 1
+        if n.k == "UnaryOperator" and n.op in ("++", "--") and n.c:
+            l = n.c[0].strip_all()
+            if l.k == "DeclRefExpr" and l.decl and l.decl.get("k") == "local":
+                written[l.decl["id"]] = written.get(l.decl["id"], 0) + 1
+    for n in f.walk():
+        if n.k == "BinaryOperator" and n.op == "=" and len(n.c) == 2:
+            l, r = n.c[0].strip_all(), n.c[1].strip_all()
+            if l.k == "MemberExpr" and l.decl and l.decl.get("k") == "field" and r.k == "DeclRefExpr" and r.decl and r.decl.get("k") == "local" \
+                    and not written.get(r.decl["id"]):
+                out[r.decl["id"]] = "field:" + l.decl["n"]
+    return out
 
 
 def _accessor_field(prog, call):
@@ -391,6 +471,8 @@ class _Lit:
 
 def _term(n, alias):
     n = n.strip_all()
+    if n.k == "DeclRefExpr" and n.decl and n.decl.get("k") == "local":
+        return alias.get(("local", n.decl["id"]))
     if n.k == "DeclRefExpr" and n.decl and n.decl.get("k") == "parm":
         nm = n.decl["n"]
         return alias.get(nm, "parm:" + nm)
@@ -464,8 +546,16 @@ def rule_G5(prog, fixture=False):
                 r = x.c[1].strip_all()
                 if l.k == "MemberExpr" and l.decl and l.decl.get("n") == fld and r.k == "DeclRefExpr" and r.decl.get("n") == prm:
                     direct = True
+        if not direct:
+            # const int len = n; ... _n = len;
+            for x in f.walk():
+                if x.k == "VarDecl" and x.c and x.c[0].strip_all().k == "DeclRefExpr" and x.c[0].strip_all().decl.get("n") == prm \
+                        and _local_field_aliases(f).get(x.decl["id"]) == "field:" + fld:
+                    direct = True
         if direct:
             alias[prm] = "field:" + fld
+    for lid, fld in _local_field_aliases(f).items():
+        alias[("local", lid)] = fld
     N, M = "field:" + mp[n_p], "field:" + mp[m_p]
     S, E = "field:" + mp[i1_p], "field:" + mp[i2_p]
     if n_p not in alias or m_p not in alias:
@@ -479,6 +569,40 @@ def rule_G5(prog, fixture=False):
         for (c, p) in atoms_of(fact.cond, fact.pol):
             cl = _clause(c, p, alias)
             clauses.append((cl, c, p, fact))
+    # checks hoisted into member helpers ( _check_range(); ) : the helper's own normal-exit facts hold after the call, as long as
+    # the constructor does not write the members they mention afterwards
+    tbk = f.throw_blocks()
+    for cnode in f.walk():
+        if not (cnode.k == "CXXMemberCallExpr" and cnode.callee and cnode.callee.get("cls") == f.cls and cnode.callee.get("repo")):
+            continue
+        obj = cnode.call_object()
+        if obj is None or obj.strip_all().k != "CXXThisExpr":
+            continue
+        g = prog.functions.get(cnode.callee["usr"])
+        loc = f.block_of(cnode)
+        if g is None or loc is None:
+            continue
+        # the call lies on every path to the normal exit
+        if f.exit in f.reachable(f.entry, removed_blocks=set(tbk) | {loc[0]}) and loc[0] != f.entry:
+            continue
+        # parameters of the helper that receive a field / parameter of the constructor denote that value
+        galias = dict((k, v) for k, v in alias.items() if isinstance(k, str))
+        gal = {}
+        for i, prm in enumerate(g.params):
+            args = cnode.call_args()
+            if i < len(args):
+                t = _term(args[i], alias)
+                if t:
+                    gal[prm["n"]] = t
+        g.blocks
+        later_writes = {k for (wb, wi, k) in f._writes() if (wb == loc[0] and wi > loc[1]) or (wb != loc[0] and wb in f.reachable(loc[0]))}
+        for fact in g.facts_at_block(g.exit, normal_exit=True):
+            if fact.belief:
+                continue
+            if any(("field", t.decl["n"]) in later_writes for t in fact.cond.walk() if t.k == "MemberExpr" and t.decl and t.decl.get("k") == "field"):
+                continue
+            for (c, p) in atoms_of(fact.cond, fact.pol):
+                clauses.append((_clause(c, p, gal), c, p, fact))
     required = [
         ("empty-array", [_Lit(N, None, _interval("!=", 0), "n != 0")], "an empty array"),
         ("zero-step", [_Lit(M, None, _interval("!=", 0), "m != 0")], "a zero step"),
